@@ -449,6 +449,8 @@ def _klass(mjm, i):
     return ":camera"
   if t in (int(S.mjSENS_ACCELEROMETER), int(S.mjSENS_FRAMELINACC)) and int(mjm.body_treeid[_body_of(mjm, objtype, objid)]) < 0:
     return ":static-body"
+  if t == int(S.mjSENS_TACTILE) and int(mjm.sensor_reftype[i]) == int(O.mjOBJ_GEOM) and int(mjm.body_treeid[int(mjm.geom_bodyid[int(mjm.sensor_refid[i])])]) < 0:
+    return ":static-body"  # tactile sensor whose geom sits on a body without degrees of freedom: MuJoCo reports zeros (matched by the zeros rule below)
   if t in (int(S.mjSENS_JOINTLIMITPOS), int(S.mjSENS_JOINTLIMITVEL), int(S.mjSENS_JOINTLIMITFRC)) and objid < mjm.ntendon and mjm.tendon_limited[objid]:
     return ":jnt-ten-id-alias"
   if t in (int(S.mjSENS_TENDONLIMITPOS), int(S.mjSENS_TENDONLIMITVEL), int(S.mjSENS_TENDONLIMITFRC)) and objid < mjm.njnt and mjm.jnt_limited[objid]:
@@ -469,6 +471,9 @@ def _klass(mjm, i):
   return ""
 
 
+_BAD_DIST_PAIRS = ("capsule-capsule", "mesh-plane")
+
+
 def _alt_geomdist(C, i, bad):
   """What the distance sensor would report if separated (dist > margin) pairs of the `bad` type pair were not detected at all:
   nearest of the remaining pairs (MuJoCo's own mj_geomDistance), or "nothing within cutoff"."""
@@ -476,12 +481,16 @@ def _alt_geomdist(C, i, bad):
   g1, g2 = _pair_geoms(mjm, i)
   cut = float(mjm.sensor_cutoff[i])
   best = None
+  _alt_geomdist.nearest_excluded = None
   for a in g1:
     for b in g2:
       ft = np.zeros(6)
       d = mujoco.mj_geomDistance(mjm, mjd, a, b, 20.0, ft)
       tp = "-".join(sorted([_GNAME[int(mjm.geom_type[a])], _GNAME[int(mjm.geom_type[b])]]))
-      if tp == bad and d > max(float(mjm.geom_margin[a]), float(mjm.geom_margin[b])):
+      if tp in _BAD_DIST_PAIRS and d > max(float(mjm.geom_margin[a]), float(mjm.geom_margin[b])):
+        # (a sensor over several geom pairs can contain both recorded classes: every undetected pair is left out)
+        if _alt_geomdist.nearest_excluded is None or d < _alt_geomdist.nearest_excluded[0]:
+          _alt_geomdist.nearest_excluded = (d, tp)
         continue
       if d < cut and (best is None or d < best[0]):
         best = (d, ft.copy())
@@ -520,7 +529,10 @@ def _matches_cause(kl, mjm, i, got, ref, tol, scale, C=None):
 def _fail(rec, C, i, got, ref, err, tol, why="", sigx="", scale=1.0):
   kl = _klass(C.mjm, i)
   if kl:
+    _alt_geomdist.nearest_excluded = None
     sigx = kl if _matches_cause(kl, C.mjm, i, got, ref, tol, scale, C) else ""
+    if sigx and kl[1:] in _BAD_DIST_PAIRS and _alt_geomdist.nearest_excluded is not None:
+      sigx = ":" + _alt_geomdist.nearest_excluded[1]  # the class of the undetected pair that should have won
   tn, on, rn = _sname(C.mjm, i)
   k = int(np.argmax(np.abs(got - ref))) if got.shape == ref.shape and got.size else 0
   rec.violation(
@@ -579,6 +591,8 @@ def _compare(rec, C, i, got, ref):
     if t != int(S.mjSENS_GEOMDIST) and (d1 - d0) < 2e-3 and d0 < cut:
       return _skip(rec, "geomdist-tie")  # two geom pairs equally close: nearest pair (normal/fromto) not unique
     tol = {int(S.mjSENS_GEOMDIST): TOL_DIST, int(S.mjSENS_GEOMNORMAL): 10 * TOL_DIST, int(S.mjSENS_GEOMFROMTO): 2 * TOL_DIST}[t]
+    if t == int(S.mjSENS_GEOMNORMAL) and d0 < 0 and not ({tp.split("-")[0], tp.split("-")[1]} <= {"sphere", "capsule", "plane"}):
+      tol = 3e-2  # penetrating convex pair: the EPA normal of the two engines differs by up to ~1 degree (thorough tier: box-cylinder 3.9 cm deep, 0.018)
     e, ok = judge(tol, 1.0)
     if ok:
       return
